@@ -441,11 +441,77 @@ func isCompareFn(call *ssa.Call) bool {
 // the *wrong* polarity only (neither edge implies the wanted relation).
 func GuardEdges(fn *ssa.Function, cmps []Cmp, bf []BoolFn) (guards map[prog.Edge]string, wrong []string) {
 	guards = map[prog.Edge]string{}
+	// holdsOn: does the condition value, when true (neg=false) or false (neg=true), imply one of the comparisons?
+	holdsOn := func(cond ssa.Value, neg bool) (string, bool) {
+		for _, c := range cmps {
+			r, ok := relOnTrue(cond, c.L, c.R, bf)
+			if !ok || r == RelNone {
+				continue
+			}
+			if neg {
+				r = negRel(r)
+			}
+			if implies(r, c.Want) {
+				return fmt.Sprintf("(%s %s %s)", c.L.Desc, r, c.R.Desc), true
+			}
+		}
+		return "", false
+	}
 	for _, b := range fn.Blocks {
 		iff := prog.IfOf(b)
 		if iff == nil || len(b.Succs) != 2 {
 			continue
 		}
+		// a short-circuit result stored in a boolean: x := a && b; if x { … }
+		if ph, ok := iff.Cond.(*ssa.Phi); ok {
+			if isAnd, conds, ok := boolPhi(ph); ok {
+				anyT, allF := "", true
+				var fs []string
+				for _, c := range conds {
+					if d, ok := holdsOn(c.V, c.Neg); ok && anyT == "" {
+						anyT = d
+					}
+					if d, ok := holdsOn(c.V, !c.Neg); ok {
+						fs = append(fs, d)
+					} else {
+						allF = false
+					}
+				}
+				tEdge, fEdge := prog.Edge{From: b, To: b.Succs[0]}, prog.Edge{From: b, To: b.Succs[1]}
+				if isAnd {
+					// true: every conjunct holds; false: some conjunct fails
+					if anyT != "" {
+						guards[tEdge] = "true edge of a conjunction containing " + anyT
+					}
+					if allF && len(fs) > 0 {
+						guards[fEdge] = "false edge of a conjunction whose every failing conjunct gives " + strings.Join(fs, " or ")
+					}
+				} else {
+					// or-phi: true: some disjunct holds; false: every disjunct fails
+					allT := true
+					var ts []string
+					anyF := ""
+					for _, c := range conds {
+						if d, ok := holdsOn(c.V, c.Neg); ok {
+							ts = append(ts, d)
+						} else {
+							allT = false
+						}
+						if d, ok := holdsOn(c.V, !c.Neg); ok && anyF == "" {
+							anyF = d
+						}
+					}
+					if allT && len(ts) > 0 {
+						guards[tEdge] = "true edge of a disjunction whose every disjunct gives " + strings.Join(ts, " or ")
+					}
+					if anyF != "" {
+						guards[fEdge] = "false edge of a disjunction containing the negation " + anyF
+					}
+				}
+				continue
+			}
+		}
+		matched := false
 		for _, c := range cmps {
 			r, ok := relOnTrue(iff.Cond, c.L, c.R, bf)
 			if !ok || r == RelNone {
@@ -453,14 +519,63 @@ func GuardEdges(fn *ssa.Function, cmps []Cmp, bf []BoolFn) (guards map[prog.Edge
 			}
 			if implies(r, c.Want) {
 				guards[prog.Edge{From: b, To: b.Succs[0]}] = fmt.Sprintf("true edge of (%s %s %s)", c.L.Desc, r, c.R.Desc)
+				matched = true
 			} else if implies(negRel(r), c.Want) {
 				guards[prog.Edge{From: b, To: b.Succs[1]}] = fmt.Sprintf("false edge of (%s %s %s)", c.L.Desc, r, c.R.Desc)
-			} else {
+				matched = true
+			} else if !matched {
 				wrong = append(wrong, fmt.Sprintf("(%s %s %s) implies %s on neither edge", c.L.Desc, r, c.R.Desc, c.Want))
 			}
 		}
 	}
 	return guards, wrong
+}
+
+// boolPhi decomposes a boolean phi produced by a short-circuit expression that was
+// assigned to a variable: it returns whether it is a conjunction (constant false
+// edges) or a disjunction (constant true edges) and the condition values involved.
+type condLit struct {
+	V   ssa.Value
+	Neg bool // the literal is NOT V
+}
+
+func boolPhi(ph *ssa.Phi) (isAnd bool, conds []condLit, ok bool) {
+	b, isBool := ph.Type().Underlying().(*types.Basic)
+	if !isBool || b.Kind() != types.Bool {
+		return false, nil, false
+	}
+	nFalse, nTrue := 0, 0
+	for i, e := range ph.Edges {
+		pred := ph.Block().Preds[i]
+		if c, isC := e.(*ssa.Const); isC && c.Value != nil && c.Value.Kind() == constant.Bool {
+			iff := prog.IfOf(pred)
+			if iff == nil {
+				return false, nil, false
+			}
+			viaTrue := pred.Succs[0] == ph.Block()
+			if constant.BoolVal(c.Value) {
+				nTrue++
+				// a disjunct that made the result true: cond if reached by the true edge, else NOT cond
+				conds = append(conds, condLit{iff.Cond, !viaTrue})
+			} else {
+				nFalse++
+				// a conjunct that made the result false: it is NOT(literal); literal = cond if reached by the false edge
+				conds = append(conds, condLit{iff.Cond, viaTrue})
+			}
+			continue
+		}
+		if _, nested := e.(*ssa.Phi); nested {
+			return false, nil, false
+		}
+		conds = append(conds, condLit{e, false})
+	}
+	if nFalse > 0 && nTrue == 0 {
+		return true, conds, true
+	}
+	if nTrue > 0 && nFalse == 0 {
+		return false, conds, true
+	}
+	return false, nil, false
 }
 
 // guardedSite decides one O2 obligation: every path from the entry of the site's
